@@ -627,45 +627,103 @@ func runC11Scan(c *Ctx) {
 		c.bad("(*RuleExpression).checkExprsIn|scan", fn.Pos(), "the placeholders are not scanned in a loop")
 		return
 	}
-	n := 0
+	// typeWithSemOK: v is the other result of the call whose boolean result is the "no diagnostic" flag
+	typeWithSemOK := func(v ssa.Value) bool {
+		ex, ok := v.(*ssa.Extract)
+		if !ok || ex.Tuple.Referrers() == nil {
+			return false
+		}
+		for _, ref := range *ex.Tuple.Referrers() {
+			if sib, ok := ref.(*ssa.Extract); ok && sib != ex && site.isSemOK(sib) {
+				return true
+			}
+		}
+		return false
+	}
+	// Edges on which the end of the placeholder is known to be unknown (the parser could not delimit it), and edges taken
+	// because the placeholder got a diagnostic.
+	type edge struct {
+		b *ssa.BasicBlock
+		i int
+	}
+	parseFailed := map[edge]bool{}
+	semFailed := map[edge]bool{}
 	for _, b := range fn.Blocks {
-		ret, ok := b.Instrs[len(b.Instrs)-1].(*ssa.Return)
-		if !ok || !reachableBlocks(call.Block().Succs, nil)[b] && b != call.Block() {
+		ifi, ok := b.Instrs[len(b.Instrs)-1].(*ssa.If)
+		if !ok {
 			continue
 		}
+		if site.isSemOK(ifi.Cond) {
+			semFailed[edge{b, 1}] = true
+		}
+		if v, nilSucc, ok := nilTest(ifi); ok {
+			// helper form: the type result is nil when nothing was parsed; inline form: the parse error is not nil, or
+			// the type that comes with the "no diagnostic" flag is nil (nothing was typed)
+			switch {
+			case site.isParseErr(v) && site.helper != nil, site.helper == nil && typeWithSemOK(v):
+				parseFailed[edge{b, nilSucc}] = true
+			case site.isParseErr(v):
+				parseFailed[edge{b, 1 - nilSucc}] = true
+			}
+		}
+		if bo, ok := ifi.Cond.(*ssa.BinOp); ok && (bo.Op == token.EQL || bo.Op == token.NEQ) {
+			for _, pair := range [][2]ssa.Value{{bo.X, bo.Y}, {bo.Y, bo.X}} {
+				if k, isConst := constInt(pair[1]); isConst && k == 0 && site.isOffset(pair[0]) {
+					if bo.Op == token.EQL {
+						parseFailed[edge{b, 0}] = true
+					} else {
+						parseFailed[edge{b, 1}] = true
+					}
+				}
+			}
+		}
+	}
+	// blocks reached from the parse of a placeholder without starting the next round of the loop, not using the edges in skip
+	from := func(skip ...map[edge]bool) map[*ssa.BasicBlock]bool {
+		seen := map[*ssa.BasicBlock]bool{}
+		work := []*ssa.BasicBlock{call.Block()}
+		for len(work) > 0 {
+			b := work[len(work)-1]
+			work = work[:len(work)-1]
+		succs:
+			for i, s := range b.Succs {
+				if s == hdr || seen[s] {
+					continue
+				}
+				for _, m := range skip {
+					if m[edge{b, i}] {
+						continue succs
+					}
+				}
+				seen[s] = true
+				work = append(work, s)
+			}
+		}
+		return seen
+	}
+	all := from()
+	all[call.Block()] = true
+	noParseFail := from(parseFailed)
+	noParseFail[call.Block()] = true
+	neither := from(parseFailed, semFailed)
+	neither[call.Block()] = true
+	n := 0
+	for _, b := range fn.Blocks {
 		// returns that can be reached from the call without going through the loop header again are exits taken because
-		// of this placeholder
-		stop := map[*ssa.BasicBlock]bool{hdr: true}
-		if !reachableBlocks(call.Block().Succs, stop)[b] {
+		// of this placeholder (a break shows as the return after the loop being reached this way)
+		ret, ok := b.Instrs[len(b.Instrs)-1].(*ssa.Return)
+		if !ok || !all[b] {
 			continue
 		}
 		n++
 		construct := fmt.Sprintf("(*RuleExpression).checkExprsIn|early exit#%d", n)
-		onlySemantic := false
-		parseFailed := false
-		for ifi, outcome := range controllingConds(b) {
-			if site.isSemOK(ifi.Cond) && !outcome {
-				onlySemantic = true
-			}
-			if v, nilSucc, ok := nilTest(ifi); ok && site.isParseErr(v) {
-				// helper form: the type result is nil when nothing was parsed; inline form: the parse error is not nil
-				if site.helper != nil && (nilSucc == 0) == outcome {
-					parseFailed = true
-				}
-				if site.helper == nil && (nilSucc == 0) != outcome {
-					parseFailed = true
-				}
-			}
-			if bo, ok := ifi.Cond.(*ssa.BinOp); ok && bo.Op == token.EQL && outcome {
-				if k, isConst := constInt(bo.Y); isConst && k == 0 && site.isOffset(bo.X) {
-					parseFailed = true
-				}
-			}
-		}
-		if onlySemantic && !parseFailed {
+		switch {
+		case !noParseFail[b]:
+			c.ok(construct, ret.Pos(), "every path from the parse of a placeholder to this exit passes a test that says the parser could not delimit the placeholder: the place where the next one starts is unknown")
+		case !neither[b]:
 			c.bad("(*RuleExpression).checkExprsIn|stops after a placeholder with a diagnostic", ret.Pos(), "the scan of a scalar stops at the first placeholder with any diagnostic: later placeholders of the same scalar are not checked (an untrusted input, a context that is not available or a syntax error in them is not reported)")
-		} else {
-			c.ok(construct, ret.Pos(), "the scan only stops where the end of the placeholder is unknown")
+		default:
+			c.bad(construct, ret.Pos(), "the scan of a scalar can stop after a placeholder that was parsed to its end and got no diagnostic: later placeholders of the same scalar are not checked")
 		}
 	}
 	if n == 0 {
